@@ -57,6 +57,7 @@ def guarded(ctx, name, f, *a):
 def run(ctx):
     quick = ctx.tier == "quick"
     ctx.prepare("C16.v")
+    ctx.rule("loop functions regenerated from the source on every run (tools/translate_loops.py -> coq/gen/Loops.v) and proved equal to the hand models for all inputs: correct_bam_coords (C16_correct_bam_coords_is_the_source), shift_polya / shift_polyt for 0 <= exon_count <= len(read_exons) (C16_shift_polya_is_the_source, C16_shift_polyt_is_the_source)")
     ctx.rule("regenerated from the source on every run (tools/translate_extra.py -> coq/gen/Extra.v; bridged to the models by C16_cigar_codes_are_the_sources, C16_polya_exon_counts_are_the_sources, C16_finder_defaults_are_the_sources): CigarEvent values with get_match_events / get_ins_del_match_events (the code -> constructor table OPN of this file is CigarBridgeDefs.cigar_of_code), the sentinel / scan direction / break test / exon test of PolyAFixer.count_polya_exons and count_polyt_exons, the PolyAFinder defaults (window 16, fraction 0.75, polyA_count 12) and its external / internal search windows")
     guarded(ctx, "get_read_blocks", sec_read_blocks, ctx, quick)
     ctx.exhaustive = False
@@ -462,7 +463,9 @@ def sec_pipeline(ctx, quick):
     root = P.scratch("iqv_c16_")
     hook = os.path.join(os.path.dirname(os.path.abspath(__file__)), "c16_hook.py")
     try:
-        data = c16_dataset(ctx.seed, os.path.join(root, "data"), 16 if quick else 40)
+        per_chain = 16 if quick else 40
+        data = c16_dataset(ctx.seed, os.path.join(root, "data"), per_chain)
+        regen = "props.c16.c16_dataset(seed=%d, dest=<dir>, per_chain=%d) rewrites the FASTA / GTF / BAM / short-read BAM of this run" % (ctx.seed, per_chain)
         recs = collections.defaultdict(list); n_rec = 0; kinds_seen = set(); shapes = collections.Counter()
         with pysam.AlignmentFile(data["bam"]) as bam:
             for a in bam:
@@ -539,7 +542,7 @@ def sec_pipeline(ctx, quick):
                                                         "None" if t is None else "(Some (%s, %s, %s, %s))" % tuple(cz(x) for x in t)))
                 blocks = [sum(1 for o, _ in c["cigar"] if o == 3) + 1 for c in cands]
                 cases.append(("(%s, %s, %s)" % (cpar, clist(cterms), civs(d["exons"])),
-                              {"job": job["name"], "arguments": job["args"], "observed": d["observed"], "read_id": d["read_id"], "chr": d["chr"], "assignment_type": d["assignment_type"], "isoform_id": d["isoform_id"],
+                              {"job": job["name"], "arguments": job["args"], "dataset": regen, "observed": d["observed"], "read_id": d["read_id"], "chr": d["chr"], "assignment_type": d["assignment_type"], "isoform_id": d["isoform_id"],
                                "exons_column": d["exons"], "alignment_records(reference_start, cigar, flag, mapq)": [(c["start"], c["cigarstring"], c["flag"], c["mapq"]) for c in cands],
                                "query_sequences": [c["seq"] for c in cands], "max_fake_terminal_exon_len": mf,
                                "nontrivial": any(o not in (0, 3) for c in cands for o, _ in c["cigar"]) or len(d["exons"]) < min(blocks)}))
